@@ -30,6 +30,9 @@ from typing import Any
 VERIF = os.path.dirname(os.path.dirname(os.path.abspath(__file__)))
 XKNX_SRC = os.environ.get("XKNX_SRC", "/repo")
 GUARD = "XKNX_VERIF"
+# where evidence/ and replays/ are written; scratch runs (mutants, seeded changes)
+# set VERIF_OUT so that they never overwrite the evidence of the real tree
+OUT = os.environ.get("VERIF_OUT", VERIF)
 
 MAX_STORED_VIOLATIONS = 40
 MAX_DISTINCT = 3_000_000
@@ -296,8 +299,8 @@ def finish(ctx: Ctx, level: str) -> int:
     if distinct < 2 and not new_mechs:
         ctx.inconclusive("fewer than 2 distinct non-trivial cases observed")
 
-    os.makedirs(os.path.join(VERIF, "evidence"), exist_ok=True)
-    os.makedirs(os.path.join(VERIF, "replays"), exist_ok=True)
+    os.makedirs(os.path.join(OUT, "evidence"), exist_ok=True)
+    os.makedirs(os.path.join(OUT, "replays"), exist_ok=True)
     coverage: dict[str, Any] = {
         "evaluations": ctx.evaluations,
         "distinct_nontrivial": distinct,
@@ -327,7 +330,7 @@ def finish(ctx: Ctx, level: str) -> int:
     }
     if ctx.replaying is None:
         with open(
-            os.path.join(VERIF, "evidence", f"{ctx.prop}.json"), "w", encoding="utf-8"
+            os.path.join(OUT, "evidence", f"{ctx.prop}.json"), "w", encoding="utf-8"
         ) as fh:
             json.dump(evidence, fh, indent=1, sort_keys=True)
             fh.write("\n")
@@ -344,7 +347,7 @@ def finish(ctx: Ctx, level: str) -> int:
                 continue
             seen.add(v["mechanism"])
             path = os.path.join(
-                VERIF, "replays", f"{ctx.prop}-{ctx.tier}-{ctx.seed}-{n}.json"
+                OUT, "replays", f"{ctx.prop}-{ctx.tier}-{ctx.seed}-{n}.json"
             )
             n += 1
             with open(path, "w", encoding="utf-8") as fh:
@@ -415,7 +418,7 @@ def parent_main(args: argparse.Namespace) -> int:
         part.nshards = 1
         return finish(part, level)
 
-    parts_dir = os.path.join(VERIF, "evidence", ".parts")
+    parts_dir = os.path.join(OUT, "evidence", ".parts")
     os.makedirs(parts_dir, exist_ok=True)
     procs = []
     for i in range(shards):
